@@ -90,7 +90,10 @@ class MetaString(type):
         if isinstance(value, String):
             value = value.to_str()
         info = cls._inspect_args(value)
-        if info.size > capacity:
+        needed = info.size
+        if hasattr(info, "data"):  # text: bytes, terminator and size word
+            needed = len(info.data) + 1 + 8
+        if needed > capacity:
             raise ValueError(
                 f"`{value}` is too large to fit in {capacity - 8} bytes"
             )
